@@ -55,7 +55,7 @@ type c13entry struct {
 	pm      string
 	before  map[string]string
 	after   map[string]string
-	errBase int // errors the handler had received before the judged request (an aborted first attempt)
+	errBase int  // errors the handler had received before the judged request (an aborted first attempt)
 	torn    bool // the aborted first attempt failed at a WRITE (possibly between the two writes of a commit)
 }
 
